@@ -90,6 +90,10 @@ def run_gaussian(key):
         ys[idx] = _points_real(seed, D, m, idx)
     cls = {'full': d.Gaussian, 'diagonal': d.DiagonalGaussian, 'spherical': d.SphericalGaussian}[fam]
     means, covs, ys = _lay(key, means, covs, ys)
+    mdt = key.get('mean_dtype', 'float64')
+    if mdt != 'float64':
+        # the stored mean in another dtype (exactly representable values): the evaluation points stay float64
+        means = means.astype(mdt)
     got, e = _call(lambda: cls(mean=means, covariance=covs).log_pdf(ys))
     if e is not None:
         return viol(f'{cls.__name__}.log_pdf raised {e!r}')
@@ -159,7 +163,8 @@ def run_vmf(key):
         m = np.eye(D)[-1] if mk == 'basis' else A.unit_vectors(seed, 1, D, 'vmf', idx, complex_=False)[0]
         means[idx] = m
         ks[idx] = KAPPAS[(KAPPAS.index(kappa) + j) % len(KAPPAS)]
-        ys[idx] = _sph_points(seed, D, m, idx, False) * [[1.0], [3.0], [1e-3], [1e3]]
+        # the density is evaluated at the direction of a point: lengths 1, 3, 1 + 4e-6 and 1e3
+        ys[idx] = _sph_points(seed, D, m, idx, False) * [[1.0], [3.0], [1 + 4e-6], [1e3]]
     means, ks, ys = _lay(key, means, ks, ys)
     got, e = _call(lambda: d.VonMisesFisher(mean=means, concentration=ks).log_pdf(ys))
     if e is not None:
@@ -170,6 +175,16 @@ def run_vmf(key):
     bad = tol.mismatch(got, want, tol.TIGHT, scale=10.0, what='vmf.log_pdf')
     if bad:
         return viol(bad, got, want)
+    # all points ALMOST on the sphere (lengths within 1e-5 of one): still evaluated at their direction
+    ys2 = np.array(ys)
+    ys2 = ys2 / np.linalg.norm(ys2, axis=-1, keepdims=True) * (1 + 4e-6 * np.array([[1.0], [-1.0], [0.5], [2.0]]))
+    ys2.setflags(write=False)
+    got2, e = _call(lambda: d.VonMisesFisher(mean=means, concentration=ks).log_pdf(ys2))
+    if e is not None:
+        return viol(f'VonMisesFisher.log_pdf raised {e!r} on almost-unit points')
+    bad = tol.mismatch(np.asarray(got2), want, tol.TIGHT, scale=10.0, what='vmf.log_pdf at points of length 1 +- 8e-6')
+    if bad:
+        return viol(bad, got2, want)
     return ok(outcome=tol.digest(want))
 
 
@@ -491,8 +506,11 @@ def subchecks(tier, seed):
                     for mk in ('zero', 'basis', 'generic'):
                         for stack in STACKS:
                             for lay in layouts(stack, D):
-                                yield (fam, D, ck, mk, stack, lay, seed)
-    subs.append(Sub('gaussian', ('family', 'D', 'cov', 'mean', 'stack', 'layout', 'seed'), gauss_cases,
+                                yield (fam, D, ck, mk, stack, lay, 'float64', seed)
+                            if mk in ('zero', 'basis') and ck in ('identity', '100.0') and D in (1, 3):
+                                for mdt in ('int64', 'float32'):
+                                    yield (fam, D, ck, mk, stack, 'C', mdt, seed)
+    subs.append(Sub('gaussian', ('family', 'D', 'cov', 'mean', 'stack', 'layout', 'mean_dtype', 'seed'), gauss_cases,
                     run_gaussian, bound=dict(D='1..8', cond=list(CONDS), stacks=list(map(list, STACKS)))))
 
     def cg_cases():
